@@ -33,9 +33,10 @@ func (x *run) checkC01(obs []seen) *Failure {
 	exp := map[int][]*kit.Entry{}
 	for _, id := range x.M.Order {
 		reg := x.M.Regs[id]
-		if reg.Life != kit.Singleton || reg.Form == kit.FormVoid {
+		if reg.Life != kit.Singleton {
 			continue
 		}
+		// (a singleton function that returns nothing is a singleton too: it runs once, at Build)
 		outs, f := x.singletonExpected(reg)
 		if f != nil {
 			return f
